@@ -33,7 +33,7 @@ ASSUMPTIONS = [
 ]
 REQUIRED_COUNTERS = ["pairs", "pairs_across_processes", "generator_routes_checked", "resamplings_accounted"]
 
-KINDS = ["zuko_train", "flowjax_train", "is_analytic", "is_zuko", "is_flowjax", "minipcn", "smc_ctor", "smc_sample", "smc_top", "blackjax", "smc_flowprec"]
+KINDS = ["zuko_train", "flowjax_train", "is_analytic", "is_zuko", "is_flowjax", "minipcn", "smc_ctor", "smc_sample", "smc_top", "blackjax", "smc_flowprec", "flow_reload"]
 
 
 def cases(tier, seed):
@@ -142,6 +142,33 @@ def execute(spec, which):
                    acc=np.asarray([float(v) for v in res.history.mcmc_acceptance]))
         info["route"] = "flow-preconditioning"
         info["user_rng_draws"] = len(proxy.draws)
+    elif kind == "flow_reload":
+        # life cycle rather than one call: the trained proposal is written to a file, the process goes on using random numbers,
+        # the proposal is read back into a fresh instance (the seed / key travels in the file) and only then drawn from
+        from aspire import Aspire
+        from aspire.utils import AspireFile
+
+        from ..harness import rm_tmp, tmpfile
+
+        backend = "zuko" if (spec["seed"][-1] // len(KINDS)) % 2 == 0 else "flowjax"
+        xpn = "torch" if backend == "zuko" else "jax"
+        a, _ = real_flow_aspire(backend, xpn)
+        path = tmpfile("reload.h5")
+        try:
+            with AspireFile(path, "w") as f:
+                a.save_flow(f)
+            perturb(which + 3)
+            probe = Probe(t)
+            b = Aspire(log_likelihood=probe.log_likelihood, log_prior=probe.log_prior, dims=d, parameters=list(t.parameters), prior_bounds=t.prior_bounds, flow_backend=backend, xp=env.xp_of(xpn))
+            with AspireFile(path, "r") as f:
+                b.load_flow(f)
+        finally:
+            rm_tmp(path)
+        x, lq = b.flow.sample_and_log_prob(16)
+        out["draw_x"], out["draw_lq"] = to_np(x), to_np(lq)
+        s = b.sample_posterior(32, sampler="importance")
+        out.update(x=to_np(s.x), log_w=to_np(s.log_w), log_evidence=to_np(s.log_evidence))
+        info["lifecycle"] = f"save-load-draw/{backend}"
     elif kind in ("is_zuko", "is_flowjax"):
         backend = "zuko" if kind == "is_zuko" else "flowjax"
         xpn = str(g.choice(["numpy", "torch", "jax"]))
